@@ -232,6 +232,7 @@ SchedFair == /\ WF_vars(Start) /\ WF_vars(Calc) /\ WF_vars(FbOne) /\ SF_vars(Tak
 EnvFair == /\ WF_vars(Recv)
            /\ \A p \in Prios : WF_vars(Release(p)) /\ WF_vars(Produce(p)) /\ WF_vars(CloseIn(p))
 LiveSpec == Spec /\ SchedFair /\ EnvFair
+VacuitySpec == Spec /\ SchedFair      \* handlers need not release: liveness must FAIL here (vacuity guard)
 
 \* ---------------------------------------------------------------- properties
 InFlightOut == Len(outq) + Sum(held)            \* handed out, release not yet issued (C01, external reading)
